@@ -305,6 +305,9 @@ class AlignmentAffine(HomogFamilyAlignment, Affine):
         # now, the Affine
         optimal_h = self._build_alignment_h_matrix(source, target)
         Affine.__init__(self, optimal_h, copy=False, skip_checks=True)
+        # Affine.__init__ goes through the target-syncing h_matrix setter, which
+        # replaced the target by the aligned source - restore the given target
+        self._target = target
 
     @staticmethod
     def _build_alignment_h_matrix(source, target):
